@@ -37,6 +37,7 @@ impl OutputFormat for Bin {
 
     fn load_buffer(&self, file_name: &Path, data: &[u8], sauce_opt: Option<crate::SauceData>) -> EngineResult<crate::Buffer> {
         let mut result = Buffer::new((160, 25));
+        result.layers[0].lines.clear();
         result.is_terminal_buffer = false;
         result.file_name = Some(file_name.into());
         result.set_sauce(sauce_opt, true);
